@@ -182,7 +182,8 @@ class TRec(Ty):
             if k in vals:
                 args.append(vals[k])
             else:
-                args.append(z3.FreshConst(t.sort(), "absent"))
+                # canonical value for an absent optional field (its value is unobservable: every read is guarded)
+                args.append(z3.Const("absent_" + _sort_name(t), t.sort()))
             if o:
                 h = (has or {}).get(k, k in vals)
                 args.append(z3.BoolVal(h) if isinstance(h, bool) else h)
